@@ -600,7 +600,9 @@ where
                     if *k < keys.len() { *evals.get_mut(&keys[*k]).unwrap() += *d; } else { skipped = true; }
                 }
                 if skipped { out.obs1(&name, "S", "skipped".into()); continue; }
+                let _ = A::take_hash_log();
                 let d = guard_any(|| A::PC::check_combinations(&vk, lcv.iter(), rec.vperm.iter().map(|i| &cms[*i]), &qs, &evals, &lp, &mut vs2, &mut vrng));
+                { let hl = A::take_hash_log(); if !hl.is_empty() { out.input(&format!("mhchal.{}", m), &hl); } }
                 out.obs1(&name, "S", decision(&d));
                 out.input(&format!("mchal.{}", m), &vs2.challenges(vs2_start));
                 if A::wants_sq_events() { out.input(&format!("msq.{}", m), &vs2.sq_events(vs2_start)); }
